@@ -38,6 +38,7 @@ static std::map<std::pair<int, uint64_t>, int> rep_devs;
 static std::map<std::tuple<int, int, uint64_t>, int64_t> rep_faults;
 std::map<std::string, long> param_override;
 static uint64_t g_timeout_s = 60;
+static int g_parkspin = 4000;
 
 // ---------------------------------------------------------------- PRNG
 static inline uint64_t splitmix(uint64_t& x) {
@@ -58,7 +59,7 @@ static int futex(std::atomic<int>* a, int op, int v) { return syscall(SYS_futex,
 static void park(int t) {
   int s = 0;
   while (W->T[t].go.load(std::memory_order_acquire) == 0) {
-    if (++s < 100) __builtin_ia32_pause();
+    if (++s < g_parkspin) __builtin_ia32_pause();
     else futex(&W->T[t].go, FUTEX_WAIT, 0);
   }
   W->T[t].go.store(0, std::memory_order_relaxed);
